@@ -14,7 +14,7 @@ import (
 )
 
 // evidence alphabet
-var c11Tokens = []string{"assertTrue", "assertEquals-ab", "assertEquals-aa", "println", "printf", "sleep", "helper-asserts", "helper-plain", "verify", "new", "plain-aa", "print", "thread-yield", "own-sleep", "err-println", "assert-on-creation"}
+var c11Tokens = []string{"assertTrue", "assertEquals-ab", "assertEquals-aa", "println", "printf", "sleep", "helper-asserts", "helper-plain", "verify", "new", "plain-aa", "print", "thread-yield", "own-sleep", "err-println", "assert-on-creation", "sleep-aa", "printf-aa"}
 
 type c11Want struct {
 	Type     string
@@ -52,6 +52,14 @@ func c11Body(tokens []string) ([]jg.Stmt, map[int]*jg.Site) {
 			s := &jg.Site{Kind: "call", Name: "sleep"}
 			sites[i] = s
 			body = append(body, jg.St(jg.T("Thread."), jg.S(s), jg.T("(10);")))
+		case "sleep-aa": // a sleep whose two arguments are textually identical: two findings for one call
+			s := &jg.Site{Kind: "call", Name: "sleep"}
+			sites[i] = s
+			body = append(body, jg.St(jg.T("Thread."), jg.S(s), jg.T("(5, 5);")))
+		case "printf-aa":
+			s := &jg.Site{Kind: "call", Name: "printf"}
+			sites[i] = s
+			body = append(body, jg.St(jg.T("System.out."), jg.S(s), jg.T("(\"x\", \"x\");")))
 		case "helper-asserts":
 			body = append(body, jg.St(jg.T("helperAsserts();")))
 		case "helper-plain":
@@ -172,6 +180,12 @@ func c11Expected(file string, isTestFile bool, methods []*c11Method) []*c11Want 
 				w = append(w, &c11Want{Type: "RedundantPrintTest", File: file, Line: cm.sites[i].Pos.Line, Required: true, Why: name + ": System.out." + t})
 			case "sleep":
 				w = append(w, &c11Want{Type: "SleepyTest", File: file, Line: cm.sites[i].Pos.Line, Required: true, Why: name + ": Thread.sleep"})
+			case "sleep-aa":
+				w = append(w, &c11Want{Type: "SleepyTest", File: file, Line: cm.sites[i].Pos.Line, Required: true, Why: name + ": Thread.sleep"},
+					&c11Want{Type: "RedundantAssertionTest", File: file, Required: true, Why: name + ": Thread.sleep(5, 5)"})
+			case "printf-aa":
+				w = append(w, &c11Want{Type: "RedundantPrintTest", File: file, Line: cm.sites[i].Pos.Line, Required: true, Why: name + ": System.out.printf"},
+					&c11Want{Type: "RedundantAssertionTest", File: file, Required: true, Why: name + ": System.out.printf(\"x\", \"x\")"})
 			case "helper-asserts":
 				asserts++
 				helperAsserts++
@@ -414,7 +428,7 @@ func init() {
 	engine.Register(&engine.Spec{
 		ID:    "C11",
 		Title: "Test-smell findings are exactly those evidenced in the test sources",
-		Rule: "X1: (a) full product of evidence sequences of length <=4 (quick) / <=5 (thorough), and all sequences of length <=7 within 2/3 deviations from the default token, over 16 evidence tokens (assertTrue, assertNotNull(new Foo()), assertEquals(a,b), assertEquals(a,a), println, printf, print, Thread.sleep, helper that asserts, helper that does not, verify, new, non-assert call with identical arguments) in one @Test method; " +
+		Rule: "X1: (a) full product of evidence sequences of length <=4 (quick) / <=5 (thorough), and all sequences of length <=7 within 2/3 deviations from the default token, over 18 evidence tokens (assertTrue, assertNotNull(new Foo()), Thread.sleep(5, 5), printf with identical arguments, assertEquals(a,b), assertEquals(a,a), println, printf, print, Thread.sleep, helper that asserts, helper that does not, verify, new, non-assert call with identical arguments) in one @Test method; " +
 			"(b) deviation-bounded trees of 1..2 classes (location: *Test.java, *Tests.java, src/test/java, production) x 1..3 methods x annotation combination (@Test, @Ignore, both in either order, none, @Before) x bodies x assertion multiplicity 4/5/6 x 12 layouts. " +
 			"Non-trivial = at least one finding is required. Distinct = distinct source trees.",
 		Assumptions: []string{
